@@ -207,6 +207,11 @@ func dump(args []string) {
 		os.Exit(2)
 	}
 	opt := core.NewCtx(w, "dump", "quick").Options()
+	if os.Getenv("VERIF_DUMP_LOOPS") != "" {
+		o := *opt
+		o.LoopInline = true
+		opt = &o
+	}
 	var rec func(fn *ssa.Function, st *ir.State, ind string)
 	rec = func(fn *ssa.Function, st *ir.State, ind string) {
 		an := ir.Analyze(fn, st, opt)
